@@ -61,7 +61,7 @@ IncM(st, k) ==
        IN  IF st.incrs + 1 >= resetAt THEN [tab |-> TabHalve(t1), door |-> {}, incrs |-> 0]
            ELSE [tab |-> t1, door |-> d1, incrs |-> st.incrs + 1]
 RECURSIVE PushM(_, _)
-PushM(st, ks) == IF ks = <<>> THEN st ELSE PushM(IncM(st, Head(ks)), Tail(ks))
+PushM(st, ks) == IF ks = <<>> THEN st ELSE LET s1 == IncM(st, Head(ks)) IN PushM(s1, Tail(ks))
 
 DriftOf(e, st) ==
   Flag(e.tab = st.tab, e.ev \o ": counter table differs from the design model")
@@ -75,9 +75,10 @@ ZeroCnt == [k \in K |-> 0]
 RECURSIVE Fold(_, _)
 Fold(acc, ks) ==
   IF ks = <<>> THEN acc
-  ELSE IF obj = "lfu" /\ acc.incn + 1 >= resetAt
-         THEN Fold([cnt |-> ZeroCnt, incn |-> 0, reset |-> TRUE], Tail(ks))
-         ELSE Fold([cnt |-> [acc.cnt EXCEPT ![Head(ks)] = @ + 1], incn |-> acc.incn + 1, reset |-> acc.reset], Tail(ks))
+  ELSE LET nxt == IF obj = "lfu" /\ acc.incn + 1 >= resetAt
+                    THEN [cnt |-> ZeroCnt, incn |-> 0, reset |-> TRUE]
+                    ELSE [cnt |-> [acc.cnt EXCEPT ![Head(ks)] = @ + 1], incn |-> acc.incn + 1, reset |-> acc.reset]
+       IN  Fold(nxt, Tail(ks))
 
 HalfLoose(p, e) == e <= (p + 1) \div 2 /\ e >= (IF p >= 1 THEN (p - 1) \div 2 ELSE 0)
 Bounds(e, c) ==
